@@ -19,23 +19,10 @@ func orderOf(mode int) (less func(a, b int) bool, cmp func(a, b int) int) {
 	case 2:
 		return func(a, b int) bool { return a/4 < b/4 }, nil
 	case 3:
-		return nil, func(a, b int) int {
-			if a < b {
-				return -1
-			} else if a > b {
-				return 1
-			}
-			return 0
-		}
+		// non-normalised compare results on purpose: only the sign is part of the contract
+		return nil, func(a, b int) int { return (a - b) * 2 }
 	default:
-		return nil, func(a, b int) int {
-			if a/4 < b/4 {
-				return -1
-			} else if a/4 > b/4 {
-				return 1
-			}
-			return 0
-		}
+		return nil, func(a, b int) int { return a/4 - b/4 }
 	}
 }
 
